@@ -99,6 +99,25 @@ class CodeGenerator:
             cval = self.context.eval_const(ival)
             cval = self.context.pack_int(cval, bits=typ.bits, signed=False)
             return cval
+        elif isinstance(typ, ast.PointerType):
+            cval = self.context.eval_const(ival)
+            if not isinstance(cval, int):
+                raise SemanticError(
+                    "Can only initialize a global pointer with an address",
+                    ival.loc,
+                )
+            bits = self.context.size_of(typ) * 8
+            cval = self.context.pack_int(cval, bits=bits, signed=False)
+            return cval
+        elif self.context.equal_types("bool", typ):
+            cval = self.context.eval_const(ival)
+            bits = self.context.size_of(typ) * 8
+            cval = self.context.pack_int(int(bool(cval)), bits=bits)
+            return cval
+        else:
+            raise SemanticError(
+                f"Cannot initialize a global of type {typ}", ival.loc
+            )
 
     def gen_globals(self, module):
         """Generate global variables and modules"""
